@@ -1,4 +1,5 @@
 (* C15 - traversal plans are well formed.  Statements only; proofs in Proofs/Plan*.v. *)
+From BaoV Require Import Proofs.Compose.
 From BaoV Require Import Model.Iter Spec.PlanSpec Spec.PlanWf.
 From BaoV Require Import Proofs.PlanProps Proofs.PlanPreStruct Proofs.PlanPost Proofs.PlanPostIter Proofs.PlanPreHolds.
 
@@ -80,3 +81,9 @@ Theorem C15_holds_post : forall size bs, size <= 2 ^ 63 -> bs <= 10 ->
   holds_post_plan size bs (post_plan size bs) = true.
 Proof. exact holds_post_plan_ok. Qed.
 Print Assumptions C15_holds_post.
+
+(* the post-order chunk iterator yields the recursive plan, unconditionally (L2 + L4 composed) *)
+Theorem C15_post_plan : forall size bs, size <= 2 ^ 63 -> bs <= 10 ->
+  post_order_chunks_iter (mkTree size bs) = post_plan size bs.
+Proof. exact post_plan_refines. Qed.
+Print Assumptions C15_post_plan.
